@@ -43,6 +43,10 @@ claim("C10","exploration","runtime monitor: output-equality oracle (sha256 of ev
  "Each program is generated repeatedly in one process, under forced link orders and again in separate processes; path sets, file contents, success/failure and the plugin request (up to id renumbering) must be identical.",
  "map-order nondeterminism is sampled, not enumerated, except link orders", "DESIGN.md §5 C10")
 
+claim("C16","fault_enumeration","offline trace checking of scripted fake-plugin event logs against the protocol automaton + exit status/stderr + strace process records + race-detector build of the host",
+ "The real thriftrw binary is run against fake plugin executables that follow fault scripts (every protocol step x every fault incl. truncation at every reply byte offset, enumerated completely for one plugin; random pairs/triples for concurrency). Each plugin writes an event log; the harness checks it against the automaton (generate only after an acceptable handshake, exactly one goodbye to live handshaken plugins, none to failed ones, frames intact), checks exit status and that stderr names a failing plugin, checks with strace -f that every plugin child was waited for, and runs half of the concurrent cases on a -race host. plugin.Main is driven over in-memory pipes.",
+ "plugins that never terminate are outside the quantifier; reaping is observed through strace on a sample (all single-plugin cases in thorough)", "DESIGN.md §5 C16")
+
 NOT_IMPL = "check not implemented yet in this round (statement about the machinery, not the technique)"
 
 def main():
